@@ -378,6 +378,25 @@ func c08eWhole(c *Ctx) {
 				}
 			}
 			walk(v)
+			// reading a list that is also kept whole (stored into a node's field) to build
+			// something else beside it — the items next to the item tokens — picks nothing out
+			// of it; what is built is judged by the rules for that field
+			if strings.HasPrefix(bad, "walked through") {
+				for x := range seen {
+					if x.Referrers() == nil {
+						continue
+					}
+					for _, r := range *x.Referrers() {
+						if st, ok := r.(*ssa.Store); ok && st.Val == x {
+							if fa, isFA := st.Addr.(*ssa.FieldAddr); isFA {
+								if n := namedOf(deref(fa.X.Type())); n != nil && n.Obj().Pkg() != nil && strings.HasSuffix(n.Obj().Pkg().Path(), "/ast") {
+									bad = ""
+								}
+							}
+						}
+					}
+				}
+			}
 			c.Check(bad == "", key, c.W.Pos(call.Pos()), "the list "+name+" returned is appended, stored or returned as a whole", "the list "+name+" returned is "+bad+": the caller picks through a list a parser gathered, so what is kept may differ from what was parsed")
 		}
 	}
